@@ -173,6 +173,7 @@ OBLIGATIONS = [
     native("n_c07_wincons_value", ["C07"], "C07.u.value", "WinCons::u_value / g_glwi / g_glshwi", TR + "n_c07_wincons_value"),
     native("n_c07_defaults", ["C07", "C10", "C08"], "C07.defaults", "EnergyProps::from(&Model) (WinConsProps) / KData::from / QSolJulData::from", TR + "n_c07_defaults"),
     native("n_c20_sun_position", ["C20"], "C20.sunpos", "climate::solar::altitude_sol_from_data / azimuth_sol_from_data / sun_position", "verif_climate::n::n_c20_sun_position", pkg="climate"),
+    native("n_c20_sun_prime_vertical", ["C20"], "C20.sunpos.prime_vertical", "climate::solar::sun_position, azimuth_sol_from_data (asin argument at the +-1 ends)", "verif_climate::n::n_c20_sun_prime_vertical", pkg="climate"),
     native("n_c20_incidence", ["C20"], "C20.incidence", "climate::solar::angle_sol_surf", "verif_climate::n::n_c20_incidence", pkg="climate"),
     native("n_c20_radiation_identities", ["C20"], "C20.radiation", "climate::radiation_for_surface", "verif_climate::n::n_c20_radiation_identities", pkg="climate"),
     native("n_c20_weather_table", ["C20"], "C20.weather_table", "climate::period_radiation_for_surface / nday_from_ymd / MONTHLYRADDATA", EN + "n_c20_weather_table"),
